@@ -11,11 +11,13 @@ mod glide;
 mod graphrun;
 mod lfo;
 mod midi;
+#[cfg(feature = "aux-hooks")]
 mod pacc;
 mod params;
 mod quant;
 mod ribbon;
 mod util;
+#[cfg(feature = "aux-hooks")]
 mod utils;
 mod voice;
 
@@ -64,7 +66,9 @@ fn main() {
                 "glide" => glide::record(driver, seed, thorough, &mut out),
                 "params" => params::record(driver, seed, thorough, &mut out),
                 "voice" => voice::record(driver, seed, thorough, &mut out),
+                #[cfg(feature = "aux-hooks")]
                 "utils" => utils::record(driver, seed, thorough, &mut out),
+                #[cfg(feature = "aux-hooks")]
                 m if m.starts_with("pacc") => pacc::record(m, driver, seed, thorough, &mut out),
                 _ => usage(),
             };
@@ -88,7 +92,9 @@ fn main() {
                 "glide" => glide::rerun(&lines, &mut out),
                 "params" => params::rerun(&lines, &mut out),
                 "voice" => voice::rerun(&lines, &mut out),
+                #[cfg(feature = "aux-hooks")]
                 "utils" => utils::rerun(&lines, &mut out),
+                #[cfg(feature = "aux-hooks")]
                 m if m.starts_with("pacc") => pacc::rerun(&lines, &mut out),
                 _ => usage(),
             }
@@ -107,6 +113,7 @@ fn main() {
                 "lfo" => graphrun::run(&g, &mut lfo::GraphTarget::new(), seed, thorough),
                 "ribbon100" => graphrun::run(&g, &mut ribbon::GraphTarget::new(100), seed, thorough),
                 "ribbon500" => graphrun::run(&g, &mut ribbon::GraphTarget::new(500), seed, thorough),
+                #[cfg(feature = "aux-hooks")]
                 m if m.starts_with("pacc") => {
                     let (w, i) = pacc::parse_module(m).unwrap_or_else(|| usage());
                     graphrun::run(&g, &mut pacc::GraphTarget::new(w, i), seed, thorough)
